@@ -518,7 +518,7 @@ def units (side, rng, tier):
                          "cur-1" if v == cur - 1 else "cur+1" if v == cur + 1
                          else "cur+8" if v == cur + 8 else v), \
             b[:o] + struct.pack("!H", v & 0xffff) + b[o + 2:]
-  n = 400 if quick else 6000
+  n = 400 if quick else 30000
   for _ in range(n):
     k, b = rng.choice(corp)
     bb = bytearray(b)
